@@ -34,7 +34,20 @@ fn opens_more_than_closes(text: &str, name: &str) -> bool {
         let after = &rest[i + open_pat.len()..];
         if delim(after.chars().next()) {
             // self-closing tags balance themselves
-            let tag_end = after.find('>').unwrap_or(after.len());
+            // end of the tag: the first '>' outside a quoted attribute value
+            let mut quote: Option<char> = None;
+            let mut tag_end = after.len();
+            for (k, ch) in after.char_indices() {
+                match (quote, ch) {
+                    (None, '"' | '\'') => quote = Some(ch),
+                    (Some(q), c) if c == q => quote = None,
+                    (None, '>') => {
+                        tag_end = k;
+                        break;
+                    }
+                    _ => {}
+                }
+            }
             if !after[..tag_end].ends_with('/') {
                 opens += 1;
             }
